@@ -189,6 +189,7 @@ typedef struct {
     int repeat;             /* pixman_repeat_t */
     int tr;                 /* transform id */
     int ox, oy;
+    int prehist;            /* 1: the image was first drawn from with ANOTHER repeat mode, then switched to `repeat` (the derived stop table must be refreshed) */
     int far;                /* drawn from a far origin (separate spaces, separate key for periodic repeats) */
     int listid;
 } request;
@@ -199,7 +200,7 @@ static void req_str(const request *q, char *buf, size_t sz)
     if (q->kind == K_LINEAR) o += snprintf(buf + o, sz - o, "p1=(%g,%g) p2=(%g,%g)", q->g[0], q->g[1], q->g[2], q->g[3]);
     else if (q->kind == K_RADIAL) o += snprintf(buf + o, sz - o, "c1=(%g,%g) r1=%g c2=(%g,%g) r2=%g", q->g[0], q->g[1], q->g[2], q->g[3], q->g[4], q->g[5]);
     else o += snprintf(buf + o, sz - o, "centre=(%g,%g) angle=%g", q->g[0], q->g[1], q->g[2]);
-    o += snprintf(buf + o, sz - o, " repeat=%s transform=%s origin=(%d,%d) stops[a,r,g,b]=", REPNAME[q->repeat], TNAME[q->tr], q->ox, q->oy);
+    o += snprintf(buf + o, sz - o, " repeat=%s%s transform=%s origin=(%d,%d) stops[a,r,g,b]=", REPNAME[q->repeat], q->prehist ? "(set after a first use with another repeat mode)" : "", TNAME[q->tr], q->ox, q->oy);
     for (int i = 0; i < q->nstops && o < (int)sz - 60; i++)
         o += snprintf(buf + o, sz - o, "%s%g:%04x,%04x,%04x,%04x", i ? " " : "", q->stops[i].x / 65536.0,
                       q->stops[i].color.alpha, q->stops[i].color.red, q->stops[i].color.green, q->stops[i].color.blue);
@@ -219,6 +220,13 @@ static pixman_image_t *req_image(const request *q)
         img = pixman_image_create_conical_gradient(&c, FX(q->g[2]), q->stops, q->nstops);
     }
     if (!img) return NULL;
+    if (q->prehist) {
+        static const pixman_repeat_t other[4] = { PIXMAN_REPEAT_PAD, PIXMAN_REPEAT_REFLECT, PIXMAN_REPEAT_NORMAL, PIXMAN_REPEAT_NONE };   /* indexed by pixman_repeat_t: NONE<-PAD, NORMAL<-REFLECT, PAD<-NORMAL, REFLECT<-NONE */
+        uint32_t one[2] = { 0, 0 }; pixman_image_t *scratch = pixman_image_create_bits(PIXMAN_a8r8g8b8, 2, 1, one, 8);
+        pixman_image_set_repeat(img, other[q->repeat & 3]);
+        pixman_image_composite32(PIXMAN_OP_SRC, img, NULL, scratch, q->ox, q->oy, 0, 0, 0, 0, 2, 1);
+        pixman_image_unref(scratch);
+    }
     pixman_image_set_repeat(img, (pixman_repeat_t)q->repeat);
     if (q->tr != T_NONE) {
         pixman_transform_t t;
@@ -460,7 +468,7 @@ static void colour_case(uint64_t idx, void *vctx)
         q.ox = ORG_FAR[d[0]][0]; q.oy = ORG_FAR[d[0]][1];
     } else {
         set_geometry(&q, c->kind, d[3], 0);
-        q.ox = ORG[d[0]][0]; q.oy = ORG[d[0]][1];
+        q.ox = ORG[d[0] % c->norg][0]; q.oy = ORG[d[0] % c->norg][1]; q.prehist = d[0] / c->norg;
     }
     q.tr = c->trs[d[1]];
     q.repeat = REPS[d[2]];
@@ -524,7 +532,7 @@ static void refuse_case(uint64_t idx, void *vctx)
 
 static void run_colour(const char *name, int kind, int nlists, int ngeo, int ntr, const int *trs, int norg)
 {
-    cctx c = { kind, nlists, ngeo, ntr, trs, norg, 0, { norg, ntr, 4, ngeo, nlists } };
+    cctx c = { kind, nlists, ngeo, ntr, trs, norg, 0, { norg * 2, ntr, 4, ngeo, nlists } };     /* x2: fresh image / image used with another repeat mode before */
     vf_space_run(name, vf_product(c.dims, 5), colour_case, &c);
 }
 static void run_far(const char *name, int kind, int nlists)
@@ -601,10 +609,10 @@ int main(int argc, char **argv)
     vf_bounds = th ? "stop lists: all 1..4-stop lists with non-decreasing positions from {0,1/4,1/2,1/2,3/4,1} x 4 colours per stop; linear 12 ordered "
                      "point pairs + 4 extra (vertical, half-pixel span, long span, off-grid); radial 17 circle pairs (a<0, a>0, a=0, equal radii, zero "
                      "radii, identical circles); conical 3 centres x 5 angles; 4 repeat modes; 8 transforms (none, scale 2, translate 1/2, rotate 90, "
-                     "2 projective, w=2, shear); 2 origins; 2 pipelines.  Safety: 14 unsorted/out-of-range/extreme stop lists x degenerate geometries "
+                     "2 projective, w=2, shear); 2 origins; fresh image and image first used with another repeat mode; 2 pipelines.  Safety: 14 unsorted/out-of-range/extreme stop lists x degenerate geometries "
                      "x 9 transforms (5 singular/overflowing) x 4 repeats x 2 origins; n_stops <= 0." FAR_TXT " (grid lists with <= 3 stops)"
                    : "stop lists: all 1..3-stop lists with non-decreasing positions from {0,1/4,1/2,1/2,3/4,1} x 4 colours per stop; linear 12 ordered "
                      "point pairs; radial 12 circle pairs; conical 3 centres x 4 angles; 4 repeat modes; 5 transforms (none, scale 2, rotate 90, "
-                     "projective, affine with w=2); origin (0,0); 2 pipelines.  Safety spaces as in the thorough tier." FAR_TXT " (grid lists with <= 2 stops)";
+                     "projective, affine with w=2); origin (0,0); fresh image and image first used with another repeat mode; 2 pipelines.  Safety spaces as in the thorough tier." FAR_TXT " (grid lists with <= 2 stops)";
     return vf_finish();
 }
